@@ -20,7 +20,7 @@ VarOf(i) == i \div 2
 Pos(i) == i % 2 = 1
 \* literal i under assignment a (variable 0 is the constant false)
 LV(a, i) == IF VarOf(i) = 0 THEN ~Pos(i) ELSE a[VarOf(i)] = Pos(i)
-Count(a, args) == Cardinality({k \in DOMAIN args : LV(a, args[k]) /\ \A j \in 1..(k - 1) : args[j] # args[k]})   \* repeated arguments count once
+Count(a, args) == Cardinality({k \in DOMAIN args : LV(a, args[k])})   \* every occurrence of a repeated argument counts
 Sem(kind, args, a) ==
   CASE kind = "conj" -> \A k \in DOMAIN args : LV(a, args[k])
     [] kind = "disj" -> \E k \in DOMAIN args : LV(a, args[k])
